@@ -103,6 +103,14 @@ func c07CheckInt(cs *drv.Case, m *strmap.StrMap[int], want map[string]int, probe
 	if m.Len() != len(want) {
 		return fail("strmap-len", "Len() = %d, want %d", m.Len(), len(want))
 	}
+	if len(want) <= 300 && cs.R.Intn(2) == 0 {
+		// printing a map is a read: it must not change what the map answers afterwards
+		if s := m.String(); len(want) > 0 && len(s) == 0 {
+			return fail("strmap-string", "String() of a loaded map is empty")
+		}
+		_ = fmt.Sprint(m)
+		cs.C.Obs("maps printed before being queried", 1)
+	}
 	for k, v := range want {
 		g, ok := m.Get(k)
 		if !ok || g != v {
